@@ -33,7 +33,7 @@ def tasks(tier):
 def window_tasks(run):
     """Start from non-initial states too: every distinct package reachable in <=D row-level steps (state-merged BFS)
     becomes an initial state from which every window of 2 adjacent steps is checked lazily vs stepwise."""
-    depth, cap = (2, 40) if run.tier == 'quick' else (8, 2500)
+    depth, cap = (1, 1000) if run.tier == 'quick' else (8, 2500)
     with core.quiet():
         seen, transitions, capped = e1.reachable_states(['P0', 'P1'], e1.SIGMA_ROW, depth, cap)
     run.extra['window_exploration'] = {'bfs_depth': depth, 'distinct_states': len(seen), 'bfs_transitions': transitions,
